@@ -451,6 +451,106 @@ theorem body_controls_in_row_order (pre : List Str) (rows : List (Nat × RowK)) 
     (h : parseRows rows = .ok its) : (bodyCtlL pre its).map (·.1) = allRowTags rows := by
   rw [bodyCtlL_tags, body_order_is_row_order rows its h]
 
+/-! ### the attribute model and the structure model are one model -/
+
+theorem optCtl_tags (o : Option QData) : (optCtl o).map (·.1) = optTags o := by
+  cases o with
+  | none => rfl
+  | some d => simp only [optCtl, optTags]; split <;> simp
+
+theorem emitOut_tags (k : RowK) (r : Cells) (ps : Dict) : (emitOut k r ps).map (·.1) = rowTags k := by
+  cases k with
+  | q d other =>
+    simp only [emitOut, rowTags, List.map_append, optCtl_tags]
+    split <;> simp
+  | begin_ ct name b helper =>
+    cases ct <;> simp [emitOut, rowTags, headerTags, optCtl_tags]
+  | skip => rfl
+  | end_ ct => rfl
+  | bad e => rfl
+
+/-- **Per row, the attribute model emits exactly the controls of the row's classification**: whenever
+    `Controls.rowControls` answers, the row classifies (`Rows.classify` on the prepared cells) as some `k` and
+    the emitted element names are `rowTags k` — the controls the structure model places for that row. -/
+theorem rowControls_aligned (lists : List Str) (n : Nat) (r0 : Cells) (cs : List Controls.Ctl)
+    (h : rowControls lists n r0 = .ok cs) :
+    ∃ k, classify lists n (prep r0).1 = .row k ∧ cs.map (·.1) = rowTags k := by
+  unfold rowControls at h
+  simp only [] at h
+  split at h
+  · cases h
+  · split at h
+    · cases h
+    · rename_i k hk
+      split at h
+      · cases h
+      · split at h
+        · cases h
+        · split at h
+          · cases h
+          · injection h with h
+            subst h
+            exact ⟨k, hk, emitOut_tags _ _ _⟩
+
+theorem allControls_aligned (lists : List Str) : ∀ (rows : List Cells) (n : Nat) (cs : List Controls.Ctl)
+    (ks : List (Nat × RowK)), allControls lists n rows = .ok cs →
+    classifyAll lists n (rows.map fun r => (prep r).1) = .ok ks → cs.map (·.1) = allRowTags ks := by
+  intro rows
+  induction rows with
+  | nil =>
+    intro n cs ks h1 h2
+    simp [allControls] at h1; simp [classifyAll] at h2; subst h1; subst h2; rfl
+  | cons r rs ih =>
+    intro n cs ks h1 h2
+    simp only [allControls] at h1
+    simp only [List.map_cons, classifyAll] at h2
+    cases hr : rowControls lists n r with
+    | error f => rw [hr] at h1; cases h1
+    | ok c1 =>
+      rw [hr] at h1; simp only [] at h1
+      obtain ⟨k, hk, ht⟩ := rowControls_aligned lists n r c1 hr
+      rw [hk] at h2; simp only [] at h2
+      cases ha : allControls lists (n + 1) rs with
+      | error f => rw [ha] at h1; cases h1
+      | ok c2 =>
+        rw [ha] at h1; simp only [] at h1
+        cases hc : classifyAll lists (n + 1) (rs.map fun r => (prep r).1) with
+        | error w => rw [hc] at h2; cases h2
+        | ok k2 =>
+          rw [hc] at h2; simp only [] at h2
+          injection h1 with h1; injection h2 with h2
+          subst h1; subst h2
+          simp [allRowTags, ht, ih (n + 1) c2 k2 ha hc]
+
+/-- **One model** (`controls_aligned`): whenever the attribute pipeline and the structural pipeline both
+    answer for a sheet, the flat list of (element, attributes) the attribute model emits is aligned, element by
+    element, with the body control list (element, ref) of `Rows.formOut` — so `body_attrs_of_row` /
+    `control_iff_visible` speak about exactly the controls that `stack_refines_nest`, `refs_resolve` and
+    `body_controls_cover_paths` place in the tree. -/
+theorem controls_aligned (root : Str) (lists : List Str) (rows : List Cells) (settings : Cells)
+    (cs : List Controls.Ctl) (o : FormOut) (h1 : allControls lists 2 rows = .ok cs)
+    (h2 : formOut root lists (rows.map fun r => (prep r).1) settings = .ok o) :
+    cs.map (·.1) = o.ctl.map (·.1) := by
+  unfold formOut at h2
+  cases hc : classifyAll lists 2 (rows.map fun r => (prep r).1) with
+  | error w => rw [hc] at h2; simp at h2
+  | ok ks =>
+    rw [hc] at h2; simp only [] at h2
+    cases hp : parseRows ks with
+    | error e => rw [hp] at h2; simp at h2
+    | ok items =>
+      rw [hp] at h2; simp only [] at h2
+      split at h2
+      · simp at h2
+      · split at h2
+        · simp at h2
+        · split at h2
+          · simp at h2
+          · simp at h2; subst h2
+            simp only []
+            rw [body_controls_in_row_order _ ks items hp]
+            exact allControls_aligned lists rows 2 cs ks h1 hc
+
 /-! ### Non-vacuity -/
 
 def exEntryText : List (String × String × String) := [("control", "tag", "input"), ("bind", "type", "string")]
@@ -491,5 +591,20 @@ example : (typeEntry "text".toList).isSome = true ∧
 example : (match parseRows exRows with
     | .ok its => tagsOfL its == allRowTags exRows && (allRowTags exRows).length == 8
     | .error _ => false) = true := by decide +kernel
+
+-- one model: a sheet with a parameterised text row, a repeat and a select inside it
+def exSheet : List Cells := [
+  [(k!"type", k!"text"), (k!"name", k!"a"), (k!"label", k!"A"), (k!"control::appearance", k!"multiline"),
+   (k!"parameters", k!"rows=3")],
+  [(k!"type", k!"begin repeat"), (k!"name", k!"r"), (k!"label", k!"R"), (k!"control::appearance", k!"field-list")],
+  [(k!"type", k!"select_one yn"), (k!"name", k!"s"), (k!"label", k!"S")],
+  [(k!"type", k!"calculate"), (k!"name", k!"c"), (k!"bind::calculate", k!"1")],
+  [(k!"type", k!"end repeat")]]
+
+example : (match allControls [k!"yn"] 2 exSheet,
+                 formOut (k!"data") [k!"yn"] (exSheet.map fun r => (prep r).1) [] with
+    | .ok cs, .ok o => cs.map (·.1) == o.ctl.map (·.1) && cs.length == 4 &&
+        cs.head? == some (k!"input", [(k!"appearance", k!"multiline"), (k!"rows", k!"3")])
+    | _, _ => false) = true := by decide +kernel
 
 end Pyxv.C04
